@@ -224,6 +224,8 @@ enum Op {
     Grow(usize),
     /// slot[dst] = slot[src].clone()
     CloneInto(usize),
+    /// dst.clone_from(&src) on an existing destination (reuses the destination's allocations)
+    CloneFromInto(usize),
     Drop(usize),
     Swap,
     /// slot[dst] = mem::take(slot[src])
@@ -242,6 +244,7 @@ fn ops() -> Vec<Op> {
         }
         v.push(Op::Grow(s));
         v.push(Op::CloneInto(s));
+        v.push(Op::CloneFromInto(s));
         v.push(Op::Drop(s));
         v.push(Op::TakeInto(s));
         v.push(Op::New(s));
@@ -343,6 +346,7 @@ impl<S: Store> HistModel for Model<S> {
             Op::Remove(s, q) => format!("{}.remove(q{q})", n(*s)),
             Op::Grow(s) => format!("{}.insert_all(12 fresh quads)", n(*s)),
             Op::CloneInto(d) => format!("{} = {}.clone()", n(*d), n(1 - *d)),
+            Op::CloneFromInto(d) => format!("{}.clone_from(&{})", n(*d), n(1 - *d)),
             Op::Drop(s) => format!("drop({})", n(*s)),
             Op::Swap => "mem::swap(A, B)".into(),
             Op::TakeInto(d) => format!("{} = mem::take({})", n(*d), n(1 - *d)),
@@ -394,6 +398,39 @@ impl<S: Store> HistModel for Model<S> {
                 rc.id = sys.next_id;
                 sys.next_id += 1;
                 sys.slots[d] = Some(c);
+                sys.refs[d] = Some(rc);
+            }
+            Op::CloneFromInto(d) => {
+                let src = 1 - d;
+                if sys.slots[d].is_none() {
+                    return false;
+                }
+                let (Some(st), Some(r)) = (sys.slots[src].clone(), sys.refs[src].clone()) else { return false };
+                // (the source is cloned once more only to satisfy the borrow checker; the operation under
+                //  test is `clone_from` on the live destination)
+                sys.slots[d].as_mut().unwrap().clone_from(&st);
+                drop(st);
+                if check {
+                    // (the resulting state usually equals one already visited through `clone()`, whose
+                    //  battery would then be skipped: audit the destination here)
+                    let issues = sys.slots[d].as_ref().unwrap().audit();
+                    if !issues.is_empty() {
+                        out.push((format!("{}:audit-after-clone_from", S::NAME), format!("{}", issues[..issues.len().min(3)].join("; "))));
+                        // the destination may hold dangling strings: never touch (or drop) it again
+                        std::mem::forget(sys.slots[d].take());
+                        sys.refs[d] = None;
+                        return true;
+                    }
+                    let got = sys.slots[d].as_ref().unwrap().index_terms().len();
+                    let exp = sys.slots[src].as_ref().unwrap().index_terms().len();
+                    if got != exp {
+                        out.push((format!("{}:clone_from-differs-from-source", S::NAME), format!("the destination's index has {got} terms, the source's {exp}")));
+                    }
+                }
+                let mut rc = r.clone();
+                rc.origin = r.id;
+                rc.id = sys.next_id;
+                sys.next_id += 1;
                 sys.refs[d] = Some(rc);
             }
             Op::Drop(s) => {
@@ -572,7 +609,7 @@ pub fn run(tier: Tier) -> Report {
     run_model::<SimpleTermIndex<u32>>(d, &mut rep);
     run_model::<SimpleTermIndex<u16>>(d, &mut rep);
     rep.rule = format!(
-        "explicit-state BFS over histories of {} operations on two slots (insert/remove of {} quads incl. owned quoted triples and language-tagged literals, a 12-quad batch crossing hash-table growth thresholds, clone into the other slot, drop, mem::swap, mem::take, new) for 10 store types (Fast/Light x Dataset/Graph x u32/u16 index, SimpleTermIndex<u32|u16>), depth {d}; states deduplicated by (content, index order, clone provenance); in every state the cfg-guarded audit checks that every borrowed string of i2t points into a key owned by the same index (address comparison, no dereference), then index terms and content are compared with the reference; plus, for the five 16-bit store types, every history of <= {} inserts (0..4 new terms each) on an index filled up to 3 free entries, followed by clone and drop of the original, with the audit after every step",
+        "explicit-state BFS over histories of {} operations on two slots (insert/remove of {} quads incl. owned quoted triples and language-tagged literals, a 12-quad batch crossing hash-table growth thresholds, clone into the other slot, clone_from onto a live slot, drop, mem::swap, mem::take, new) for 10 store types (Fast/Light x Dataset/Graph x u32/u16 index, SimpleTermIndex<u32|u16>), depth {d}; states deduplicated by (content, index order, clone provenance); in every state the cfg-guarded audit checks that every borrowed string of i2t points into a key owned by the same index (address comparison, no dereference), then index terms and content are compared with the reference; plus, for the five 16-bit store types, every history of <= {} inserts (0..4 new terms each) on an index filled up to 3 free entries, followed by clone and drop of the original, with the audit after every step",
         ops().len(),
         universe().len(),
         tier.pick(2, 3)
